@@ -387,10 +387,10 @@ func c02RunSession(s c02Session, faults bool) explore.Result {
 
 func init() {
 	explore.Register(&explore.Check{
-		ID:        "C02",
-		Level:     "model_checking",
-		Technique: "explicit-state enumeration of frame-writer operation sequences x sink faults on the real buffer.Writer against a list-of-frames model; exhaustive enumeration of sessions over an 'odd vocabulary' of handler programs and client histories on a real server, every captured byte stream parsed by an independent strict backend grammar; write-fault enumeration (every k-th write fails)",
-		Rule:      "F1: all operation sequences of length <= d over 13 writer operations (within the Start..End bracket) x {healthy sink, k-th write fails (sticky / transient), short write}; F2: ErrorResponse shapes (C17 enumeration to depth 3); F3: ~3k sessions (result-writer programs x 0-3 columns with odd names x tags; 64 decorator subsets simple+extended; all extended histories of length <= 2 over the C06 alphabet; startup/global parameters with empty and non-ASCII values, auth none/good/bad; SSL refusal; COPY for 1-3 columns x 2 formats x 3 policies x short client sequences; oversized/unknown) and for every 3rd session every position of a failing write",
+		ID:          "C02",
+		Level:       "model_checking",
+		Technique:   "explicit-state enumeration of frame-writer operation sequences x sink faults on the real buffer.Writer against a list-of-frames model; exhaustive enumeration of sessions over an 'odd vocabulary' of handler programs and client histories on a real server, every captured byte stream parsed by an independent strict backend grammar; write-fault enumeration (every k-th write fails)",
+		Rule:        "F1: all operation sequences of length <= d over 13 writer operations (within the Start..End bracket) x {healthy sink, k-th write fails (sticky / transient), short write}; F2: ErrorResponse shapes (C17 enumeration to depth 3); F3: ~3k sessions (result-writer programs x 0-3 columns with odd names x tags; 64 decorator subsets simple+extended; all extended histories of length <= 2 over the C06 alphabet; startup/global parameters with empty and non-ASCII values, auth none/good/bad; SSL refusal; COPY for 1-3 columns x 2 formats x 3 policies x short client sequences; oversized/unknown) and for every 3rd session every position of a failing write",
 		Assumptions: []string{"handler-supplied strings contain no NUL byte (a C-string field cannot carry one)", "buffer.Writer is used inside its documented Start..End bracket"},
 		Enumerate:   c02Enumerate,
 		Bounds: func(tier string) map[string]any {
